@@ -54,6 +54,13 @@ def correspond(ctx, cases, fields, stream, canon=None, timeout_ms=4000, skip=Non
         if d:
             ctx.mismatch("Impl and model differ on %s (%s)" % (",".join(d), stream), case=c,
                          impl={k: a[k] for k in d}, model={k: b[k] for k in d})
+        if a.get("stdout") and "stderr" in fields:
+            # the library has one stream for everything it prints: the error stream (the model has no other)
+            if ctx.prop == "C07" and any(l.startswith("Error:") or l.startswith("Usage:") for l in a["stdout"]):
+                ctx.violation("stream", "argv %r: the error or the usage of a rejected invocation went to the output stream, not to the "
+                              "error stream: %r" % (c["argv"], a["stdout"][:3]), case=c)
+            else:
+                ctx.mismatch("Impl wrote to its output stream (%s)" % stream, case=c, impl={"stdout": a["stdout"][:5]}, model={"stdout": []})
     ctx.stream(stream, len(cases))
     return out
 
